@@ -244,6 +244,23 @@ func checkC06(sc *Scenario, res *RunResult, t *Truth) []Violation {
 			}
 		}
 	}
+	// once a project shutdown has returned, nothing that nobody asked for is launched any more:
+	// a command registered behind the shutdown's back has no one left to stop it
+	if shut != nil && shut.Op == "shutdown" {
+		for _, p := range sc.Project.Procs {
+			asked := false
+			for _, c := range t.Calls {
+				if (c.Op == "start" || c.Op == "restart") && c.Arg == p.Name {
+					asked = true
+				}
+			}
+			for _, L := range t.ByRep[p.Name] {
+				if !asked && L.ExecSeq > shut.RetSeq {
+					add("launched-after-shutdown-returned", "", fmt.Sprintf("%s (pid %d) was launched at t=%v, after the project shutdown requested at t=%v had returned at t=%v", p.Name, L.Pid, L.ExecT, shut.CallT, shut.RetT), L.ExecSeq)
+				}
+			}
+		}
+	}
 	if t.RunRet >= 0 && !t.Hang && shut != nil {
 		for _, p := range sc.Project.Procs {
 			if p.ParentOnly {
